@@ -8,7 +8,10 @@ hypotheses of the theorems, never by an axiom):
 
 * the pickler: a pair `dumps / loads` (`cashews/picklers.py`: pickle, json, dill, …, NonPickler);
 * the MAC: `mac : Digest → secret → message → Bytes` (`HashSigner._digestmods[label](secret, msg)`);
-* the registered custom encoders/decoders and `type(value).__name__`.
+* the registered custom encoders/decoders and the class of a value (`type(value)`, a `Klass`: `__name__` and
+  `__qualname__`); the registry key of a class is the ONE function `Klass.tag`, applied by `register_type` and by
+  `_custom_encode` alike;
+* how the caller's texts reach the MAC: `key.encode()` and `_to_bytes(secret)` (`encodeK` / `decodeK`, `SecretArg`).
 
 The registry of custom types (`Serializer._type_mapping`) is a CLASS attribute that `register_type` updates at
 any time, before or after serializers and caches are built: it is not part of a serializer's configuration.
@@ -124,14 +127,38 @@ structure Signer where
   digest : Digest
   deriving DecidableEq, Repr
 
+def tagBytes : Bytes := [0x62, 0x79, 0x74, 0x65, 0x73]   -- b"bytes"
+def tagInt : Bytes := [0x69, 0x6e, 0x74]                  -- b"int"
+
+/-- A Python class as far as `register_type(klass, …)` and `type(value)` are concerned: its `__name__` and its
+`__qualname__` (`Outer.Inner`, `f.<locals>.Point`; equal to `__name__` for a module-level class).  Two different
+classes may share their `__name__` (nested in different classes, local to different functions, other modules), and
+a subclass is a class of its own: `type(value)` is the exact class, never a base. -/
+structure Klass where
+  name : Bytes
+  qual : Bytes
+  deriving DecidableEq, Repr
+
+/-- **The registry key of a class**: `bytes(klass.__name__, "utf8")`.  ONE function, applied by `register_type` to the
+class it is given (`cls._type_mapping[bytes(klass.__name__, "utf8")] = …`) and by `_custom_encode` to `type(value)`
+(`value_type = bytes(type(value).__name__, "utf8")`); the stored envelope `tag:payload` starts with it.  If the two
+sites used different functions (say `__qualname__` on one side), every class on which they differ would be registered
+under a key that is never looked up (`Props.C09.registered_under_another_key_is_bypassed`). -/
+def Klass.tag (k : Klass) : Bytes := k.name
+
+/-- the builtin `int` -/
+def Klass.int : Klass := ⟨tagInt, tagInt⟩
+/-- the builtin `bytes` -/
+def Klass.bytes : Klass := ⟨tagBytes, tagBytes⟩
+
 structure Cfg (α : Type) where
   /-- `HashSigner._digestmods[label](secret, message)` -/
   mac : Digest → Bytes → Bytes → Bytes
   /-- `none` = `NullSigner` -/
   signer : Option Signer
   pickler : Pickler α
-  /-- `bytes(type(value).__name__, "utf8")` for values that are neither int nor bytes -/
-  typeName : α → Bytes
+  /-- `type(value)` for values that are neither int nor bytes -/
+  classOf : α → Klass
 
 /-- `Serializer._type_mapping`: class-level, shared by every serializer of the process, consulted afresh by every
 `encode` / `decode` call (`value_type in self._type_mapping`) -/
@@ -142,12 +169,21 @@ variable {α : Type}
 /-- no type registered -/
 def Registry.empty : Registry α := fun _ => none
 
-/-- `register_type(klass, encoder, decoder)`: `cls._type_mapping[bytes(klass.__name__, "utf8")] = (encoder, decoder)` —
-a dict assignment: a later registration under the same name replaces the pair -/
+/-- the dict assignment `cls._type_mapping[tag] = (encoder, decoder)`: a later assignment under the same key
+replaces the pair (`register_type` is `Registry.registerClass` below) -/
 def Registry.register (r : Registry α) (tag : Bytes) (c : Codec α) : Registry α :=
   fun t => if t = tag then some c else r t
 
+/-- **`register_type(klass, encoder, decoder)`**: the dict assignment under `klass`'s registry key — the same
+`Klass.tag` that `tagOf` applies to `type(value)`.  Classes with the same `__name__` share one slot. -/
+def Registry.registerClass (r : Registry α) (k : Klass) (c : Codec α) : Registry α :=
+  r.register k.tag c
+
 /-- a sequence of `register_type` calls, oldest first -/
+def Registry.registerClasses (r : Registry α) (l : List (Klass × Codec α)) : Registry α :=
+  l.foldl (fun r kc => r.registerClass kc.1 kc.2) r
+
+/-- a sequence of dict assignments, oldest first -/
 def Registry.registerAll (r : Registry α) (l : List (Bytes × Codec α)) : Registry α :=
   l.foldl (fun r tc => r.register tc.1 tc.2) r
 
@@ -207,14 +243,14 @@ def sign (cfg : Cfg α) (key : Bytes) (v : Val α) : Option (Val α) :=
 
 /-! ### encode  (serialize.py:102-117) -/
 
-def tagBytes : Bytes := [0x62, 0x79, 0x74, 0x65, 0x73]   -- b"bytes"
-def tagInt : Bytes := [0x69, 0x6e, 0x74]                  -- b"int"
+/-- `type(value)` -/
+def classOfVal (cfg : Cfg α) : Val α → Klass
+  | .int _ => Klass.int
+  | .bytes _ => Klass.bytes
+  | .obj x => cfg.classOf x
 
-/-- `bytes(type(value).__name__, "utf8")` -/
-def tagOf (cfg : Cfg α) : Val α → Bytes
-  | .int _ => tagInt
-  | .bytes _ => tagBytes
-  | .obj x => cfg.typeName x
+/-- `bytes(type(value).__name__, "utf8")`: the registry key (`Klass.tag`) of the value's exact class -/
+def tagOf (cfg : Cfg α) (v : Val α) : Bytes := (classOfVal cfg v).tag
 
 /-- `_custom_encode`: `value_type + b":" + encoded_value` for a registered type, else `None` -/
 def customEncode (cfg : Cfg α) (reg : Registry α) (v : Val α) : Option Bytes :=
@@ -306,6 +342,79 @@ def decode (cfg : Cfg α) (reg : Registry α) (key : Bytes) (w : Val α) (same :
   | .loads p => postLoads reg p (cfg.pickler.loads p)
 
 
+/-! ### how the caller's texts reach the MAC: `key.encode()` and `_to_bytes(secret)`
+
+Everything above takes the key and the secret as the BYTES the MAC is computed over.  The caller supplies a `str` key
+and a `str | bytes` secret (or whatever the settings-url parser made of the text after `secret=`); the code turns them
+into bytes at exactly one place, the MAC computation (`_gen_sign`: `key.encode() + value`, `self._secret`).  Both
+conversions can fail, and the integrity statements of C10 are about the TEXTS only as far as the conversions are
+injective (`Props.C10.EncInjective`, an explicit hypothesis there). -/
+
+/-- what arrives as `secret=` at `HashSigner.__init__` -/
+inductive SecretArg where
+  | str (utf8 : Bytes)     -- a `str`, given by its (strict) UTF-8 encoding
+  | bytes (b : Bytes)      -- `bytes`
+  | other                  -- neither: an `int` / `float` (what `_serialize_params` makes of numeric-looking url text)
+  deriving DecidableEq, Repr
+
+/-- `_to_bytes`: `value.encode()` for a `str`, anything else is left alone; `none` = still not bytes afterwards
+(`hmac.new` / `sum()` then raise TypeError at the first MAC computation).  Different `str`s stay different, a `str`
+and the `bytes` of the same text are the same secret, and NO non-bytes object is rendered through `str()` (which would
+identify `0042`, `042` and `42` once the url parser has made the int 42 of each). -/
+def toBytes : SecretArg → Option Bytes
+  | .str u => some u
+  | .bytes b => some b
+  | .other => none
+
+/-- does `encode` compute a MAC?  (not for integers, not with the `NullSigner`) -/
+def encodeUsesMac (cfg : Cfg α) (v : Val α) : Bool :=
+  match v, cfg.signer with
+  | .int _, _ => false
+  | _, none => false
+  | _, some _ => true
+
+/-- does `decode` compute a MAC?  Only for stored bytes that are not an integer literal, that contain a `_`, and whose
+header names a known digest — `check_sign` splits and looks the label up BEFORE `_gen_sign` touches key or secret. -/
+def decodeUsesMac (cfg : Cfg α) (w : Val α) (same : Bool) : Bool :=
+  if same then false
+  else match w, cfg.signer with
+    | .bytes b, some s =>
+      if isIntLit b then false
+      else match splitFirst us b with
+        | none => false
+        | some (hdr, _) => (signAndDigest s hdr).isSome
+    | _, _ => false
+
+/-- why a MAC could not be computed -/
+inductive MacErr where
+  | key                    -- `key.encode()` raised UnicodeEncodeError (a lone surrogate in the key)
+  | secret                 -- the secret is not bytes: TypeError from `hmac.new` / `sum`
+  deriving DecidableEq, Repr
+
+inductive ResK (α : Type) where
+  | res (r : Res α)
+  | macError (e : MacErr)  -- the exception escapes `decode` (it is neither of the two signature errors)
+  deriving DecidableEq, Repr
+
+/-- `Serializer.encode` for a key text whose encoding is `key` (`none` = `key.encode()` raises) and a secret that is
+(`secretOk`) or is not bytes after `_to_bytes`.  `none` = it raised.  `key.encode()` is evaluated first, then the MAC
+is called with the secret. -/
+def encodeK (cfg : Cfg α) (reg : Registry α) (key : Option Bytes) (secretOk : Bool) (v : Val α) : Option (Val α) :=
+  if encodeUsesMac cfg v then
+    match key, secretOk with
+    | some kb, true => encode cfg reg kb v
+    | _, _ => none
+  else encode cfg reg (key.getD []) v      -- the key is not looked at (`Props.C10.encode_ignores_key_without_mac`)
+
+/-- `Serializer.decode` likewise -/
+def decodeK (cfg : Cfg α) (reg : Registry α) (key : Option Bytes) (secretOk : Bool) (w : Val α) (same : Bool) : ResK α :=
+  if decodeUsesMac cfg w same then
+    match key, secretOk with
+    | none, _ => .macError .key
+    | some _, false => .macError .secret
+    | some kb, true => .res (decode cfg reg kb w same)
+  else .res (decode cfg reg (key.getD []) w same)   -- the key is not looked at (`Props.C10.decode_ignores_key_without_mac`)
+
 /-! ### the glue in `cashews/backends/memory.py`: where encode / decode are called
 
 TTLs, LRU order and capacity are C01 / C11; here the store is just "key ↦ what `encode` returned". -/
@@ -342,13 +451,13 @@ def SStore.getMany (cfg : Cfg α) (reg : Registry α) (st : SStore α) (keys : L
 /-- one step of a process between the write and the read of a key: a `register_type` call (class level: it
 reaches every serializer of the process) or a write -/
 inductive Later (α : Type) where
-  | register (tag : Bytes) (c : Codec α)
+  | register (klass : Klass) (c : Codec α)
   | set (k : Bytes) (v : Val α)
 
 /-- the process state: the class-level registry and the store of one in-memory backend -/
 def runLater (cfg : Cfg α) : Registry α × SStore α → List (Later α) → Registry α × SStore α
   | s, [] => s
-  | (reg, st), .register tag c :: r => runLater cfg (reg.register tag c, st) r
+  | (reg, st), .register klass c :: r => runLater cfg (reg.registerClass klass c, st) r
   | (reg, st), .set k v :: r => runLater cfg (reg, st.set cfg reg k v) r
 
 /-! ### what `hexdigest().encode()` and `f"{s:x}".encode()` look like -/
